@@ -28,6 +28,8 @@ def specs_for(chk, n, profile):
             opts['cat_tail'] = True
         if profile.get('excl') and i % 7 == 3:
             opts['fixed_cat'] = 'nested' if (i // 7) % 2 == 0 else True
+        if profile.get('excl') and i % 10 == 6 and not opts.get('mlp_res'):
+            opts['grouped_excl'] = True
         if profile.get('reuse') and i % 4 == 1:
             opts['reuse'] = 'pool' if (i // 4) % 2 == 0 else True     # 'pool': the two call sites at two resolutions
         if profile.get('unsupported') and i % profile.get('unsupported_every', 6) == 0 and not opts.get('fixed_cat'):
